@@ -144,6 +144,8 @@ def enc_event(ev):
         return [14, ev[1], ev[2]] + lp(ev[3])
     if k == "bootlost":
         return [15, ev[1]]
+    if k == "resend":
+        return [16, ev[1], 1 if ev[2] else 0, ev[3]]
     raise ValueError(ev)
 
 
@@ -309,6 +311,7 @@ class Impl(object):
         self.conn_name = {}       # conn_id -> the same
         self.directs = []         # Deferreds of direct requests
         self.direct_rid = []
+        self.direct_bc = []       # the broker client object each went to
         self.ops = []             # (kind, rid)
         self.rid_kind = {}        # rid -> "direct" | "raw" | "meta"
         self.records = []
@@ -355,6 +358,8 @@ class Impl(object):
             return at is not None and at.transport is not None and at.transport.live
         if k == "cancelreq":
             return 0 <= ev[1] < len(self.directs)
+        if k == "resend":
+            return 0 <= ev[1] < len(self.directs) and not self.closed
         return True
 
     # ---- Deferred outcomes -> the enum of the model
@@ -485,6 +490,23 @@ class Impl(object):
                 self._watch(d, "req", len(self.directs))
                 self.directs.append(d)
                 self.direct_rid.append(rid)
+                self.direct_bc.append(bc)
+        elif k == "resend":
+            # the SAME correlation id issued again to the same broker client (what fetch_api_versions does for its retries)
+            d0, expect, mint = ev[1], ev[2], ev[3]
+            bc, rid = self.direct_bc[d0], self.direct_rid[d0]
+            req = header(API_DIRECT, 0, rid) + b"D"
+            self._last_send = (bc, rid)
+            try:
+                d = c._make_request_to_broker(bc, rid, req, expectResponse=bool(expect),
+                                              min_timeout=None if mint < 0 else mint / 1000.0)
+            except C.DuplicateRequestError:
+                log.append(("raised", 1))
+            else:
+                self._watch(d, "req", len(self.directs))
+                self.directs.append(d)
+                self.direct_rid.append(rid)
+                self.direct_bc.append(bc)
         elif k == "cancelreq":
             self.directs[ev[1]].cancel()
         elif k == "op":
@@ -653,10 +675,10 @@ def fix_timer_counts(records):
 # ------------------------------------------------------------------ on-line state-aware generator
 PROFILES = {
     # emphasis on timers racing replies, several requests per connection, disconnect_on_timeout
-    "c11": dict(send=24, cancelreq=3, op=5, update=3, close=0.6, reset=0.5, ok=14, fail=3, lost=4, reply=22, late=7,
+    "c11": dict(send=24, cancelreq=3, resend=5, op=5, update=3, close=0.6, reset=0.5, ok=14, fail=3, lost=4, reply=22, late=7,
                 timer=16, boot=8, tick=14),
     # emphasis on bootstrap, refreshes that remove brokers, close in every state and events after close
-    "c20": dict(send=14, cancelreq=2, op=14, update=8, close=3.0, reset=1.5, ok=12, fail=3, lost=8, reply=12, late=5,
+    "c20": dict(send=14, cancelreq=2, resend=1.5, op=14, update=8, close=3.0, reset=1.5, ok=12, fail=3, lost=8, reply=12, late=5,
                 timer=8, boot=16, tick=6),
 }
 
@@ -711,6 +733,7 @@ class Gen(object):
         opts.append((("send",), w["send"] * post))
         if im.directs:
             opts.append((("cancelreq",), w["cancelreq"]))
+            opts.append((("resend",), w["resend"] * (0.1 if closed else 1.0)))
         opts.append((("op",), w["op"] * post))
         opts.append((("update",), w["update"] * post))
         opts.append((("close",), w["close"] * (0.5 if closed else 1.0)))
@@ -759,6 +782,12 @@ class Gen(object):
             return ("send", node, expect, mint)
         if k == "cancelreq":
             return ("cancelreq", rnd.randrange(len(im.directs)))
+        if k == "resend":
+            # the same correlation id again: mostly a recent request (timed out, answered, still pending, ..)
+            n = len(im.directs)
+            d0 = n - 1 - min(n - 1, int(rnd.expovariate(0.7)))
+            self.h("resend_same_id")
+            return ("resend", d0, rnd.random() >= 0.1, rnd.choice([-1, -1, -1, 1000, 30000]))
         if k == "op":
             return ("op", rnd.choice([0, 1, 1, 1]), rnd.random() < 0.5)
         if k == "update":
@@ -899,6 +928,8 @@ def monitor(cfg, records, which=("C11", "C20")):
     req_info = {}             # d -> (broker client, correlation id, expects a reply)
     op_kind = {}              # p -> kind
     boot_lose = set()         # bootstrap connections the client asked to close
+    conn_w = {}               # (broker client, correlation id) -> requests d in the order they were written on its CURRENT connection
+    conn_r = {}               # (broker client, correlation id) -> reply frames with that id received on the current connection
 
     def B(thm, msg):
         bad.append((thm, msg, idx))
@@ -930,15 +961,23 @@ def monitor(cfg, records, which=("C11", "C20")):
                 B("C11_disconnect_on_timeout", "connection of broker client %d lost with requests %r unanswered and no new attempt" % (ev[1], mine))
         if k == "ok" and not closed and c11:
             wr = [o[2] for o in outs if o[0] == "write" and o[1] == ev[1]]
+            by_id = {}            # one correlation id may have been issued several times (resend): group the requests by id
             for d, (bi, rid, _x) in req_info.items():
-                if bi != ev[1]:
-                    continue
+                if bi == ev[1]:
+                    by_id.setdefault(rid, []).append(d)
+            for rid, ds in sorted(by_id.items()):
                 n = wr.count(rid)
-                resolved_before = d in req_res
-                if not resolved_before and n != 1:
-                    B("C11_disconnect_on_timeout", "new connection of broker client %d: unanswered request %d (id %d) written %d times" % (ev[1], d, rid, n))
-                if resolved_before and n:
-                    B("C11_disconnect_on_timeout", "new connection of broker client %d: resolved request %d (id %d) written again" % (ev[1], d, rid))
+                open_ds = [d for d in ds if d not in req_res]
+                if open_ds and n != len(open_ds):
+                    B("C11_disconnect_on_timeout", "new connection of broker client %d: unanswered request(s) %r (id %d) written %d times" % (ev[1], open_ds, rid, n))
+                if not open_ds and n:
+                    B("C11_disconnect_on_timeout", "new connection of broker client %d: resolved request(s) %r (id %d) written again" % (ev[1], ds, rid))
+        if k == "lost":
+            for key in [x for x in conn_w if x[0] == ev[1]]:
+                del conn_w[key]
+            for key in [x for x in conn_r if x[0] == ev[1]]:
+                del conn_r[key]
+        res_before = set(req_res)
         scheds = [o for o in outs if o[0] == "sched"]
         cancels = [o[1] for o in outs if o[0] == "cancel_timer"]
         netact = [o for o in outs if o[0] in ("connect", "write", "bootconnect", "bootwrite", "sched")]
@@ -970,7 +1009,7 @@ def monitor(cfg, records, which=("C11", "C20")):
             if not any(o[0] == "sched" and o[2] == 2 and o[3] == cfg["timeout"] for o in outs):
                 B("C11_bound", "bootstrap request written without a DelayedCall of the client timeout: %r" % (scheds,))
         # ---- API events
-        if k == "send":
+        if k in ("send", "resend"):       # resend: same positions for expect / min_timeout; never enabled after close()
             raised = [o for o in outs if o[0] == "raised"]
             if closed:
                 if c20 and (raised != [("raised", 4)] or len(outs) != 1):
@@ -1021,6 +1060,28 @@ def monitor(cfg, records, which=("C11", "C20")):
                 op_res[o[1]] = o[2]
                 if o[2] == 99:
                     B("C20_pending_end", "operation %d resolved with an unexpected value" % o[1])
+        # ---- every frame answers the request that was written for it: a request that is the j-th one written with its id on
+        #      this connection is never completed by an earlier frame than the j-th with that id (the frames before it are
+        #      the answers to the earlier requests - e.g. one that timed out: C11_late_reply_inert "without disturbing any
+        #      other request", observable once a correlation id is issued again)
+        for o in outs:
+            if o[0] == "write":
+                cand = [d for d, (bi, rid, _x) in req_info.items() if bi == o[1] and rid == o[2] and d not in res_before]
+                if not cand or req_info[max(cand)][2]:           # a request that expects no reply is answered by no frame
+                    conn_w.setdefault((o[1], o[2]), []).append(max(cand) if cand else None)
+        if k == "reply":
+            key = (ev[1], ev[2])
+            conn_r[key] = conn_r.get(key, 0) + 1
+            for o in outs:
+                if o[0] == "req" and o[2] == 1 and c11:
+                    w = conn_w.get(key, [])
+                    if o[1] not in w:
+                        B("C11_late_reply_inert", "request %d completed by a frame with id %d on broker client %d, where it was not written on this connection" % (o[1], ev[2], ev[1]))
+                    else:
+                        j = len(w) - w[::-1].index(o[1])
+                        if conn_r[key] < j:
+                            B("C11_late_reply_inert", "request %d is the %d. request written with id %d on this connection and was completed by the %d. frame with that id: "
+                                                      "the answer to an earlier request (%r)" % (o[1], j, ev[2], conn_r[key], w[:j - 1]))
         # ---- a reply that matches nothing unanswered changes nothing
         if k == "reply" and c11:
             rid = ev[2]
